@@ -16,6 +16,7 @@ SPEC += [
   ("C06", "C06-scaffold-sat-unsat-cuts-missing", ["proof.scaffold", "proof.sat-unsat"], r"^nogood-not-implied", "scaffold proof of a linear SAT-UNSAT optimisation does not contain the objective cuts its nogoods depend on"),
   ("C06", "C06-hints-incomplete", ["proof.hinted"], r"^hints-insufficient", "hinted proof: a nogood follows by propagation from the earlier steps but not from the steps named in its hints (a unit nogood behind a root-level fact is missing from the hints)"),
   ("C06", "C06-root-premise-not-true", [], r"assertion failed: self.assignments.is_predicate_s", "full / hinted proof: logging a root propagation asserts on a reason predicate that is not true; seen with new_literal_for_predicate for a predicate that is already decided at the root, and with a reified constraint in which the reification literal itself occurs (b <-> (b != x - 1): the literal is set to false with a reason that contains [b == 1])"),
+  ("C08", "C08-repeated-start-variable-late-conflict", ["cumulative.repeated_var"], r"If the heap is empty when extracting the final nogood", "cumulative in which one variable is the start time of two tasks (here x and -2x): a conflict is reported at a decision level to which none of its predicates belongs (it existed at a lower level already), and conflict analysis panics on the empty heap; seen once, with TimeTablePerPointIncrementalSynchronised, sequence generation and incremental backtracking off"),
   ("C16", "C16-extreme-minmax", ["mag.regime.extreme"], r"^solution-invented.*\((max|min)\) violated", "maximum / minimum over an offset view in a domain that contains i32::MAX (or i32::MIN + 1): a bound that lies beyond the 32-bit range is replaced by the nearest representable value when it is mapped to the inner variable, which is not strong enough when that value is in the domain, so an assignment that violates the constraint is reported", ["kind.max", "kind.min"]),
 ]
 
